@@ -226,3 +226,32 @@ pub fn sign_failure_key(h: HashId, levels: &[Level], kind: &str) -> String {
         format!("sign-{} L={}", kind, levels.len())
     }
 }
+
+/// Sub-check `fuzz_input`: every committed fuzzer input under fuzz/regress/<target>/ (and the
+/// replayed one, if any) goes through the same decoder + oracle as inside the fuzz target.
+pub fn fuzz_regress(ctx: &Ctx, target: &str) {
+    use crate::fuzzdec::{run_case, FuzzCase};
+    let ov = ctx.known_ls_overrides();
+    let mut cases: Vec<FuzzCase> = Vec::new();
+    let dir = ctx.verif_dir.join("fuzz").join("regress").join(target);
+    if let Ok(rd) = std::fs::read_dir(&dir) {
+        let mut paths: Vec<_> = rd.filter_map(|e| e.ok()).map(|e| e.path()).collect();
+        paths.sort();
+        for p in paths {
+            if let Ok(b) = std::fs::read(&p) {
+                cases.push(FuzzCase { target: target.to_string(), data: crate::gen::Hex(b) });
+            }
+        }
+    }
+    // the enumerate call must happen even with zero files so that replay files resolve
+    let t = target.to_string();
+    ctx.enumerate("fuzz_input", cases.len() as u64, false, |i| cases[i as usize].clone(), move |c: &FuzzCase| {
+        if c.target != t {
+            return crate::engine::pass("other-target", false);
+        }
+        match run_case(c, &ov) {
+            Ok(()) => crate::engine::pass(format!("{}|ok", c.target), true),
+            Err((k, m)) => crate::engine::fail(k, m),
+        }
+    });
+}
